@@ -47,7 +47,9 @@ func (r *rewriter) fresh(p string) *ast.Ident {
 	return ast.NewIdent(fmt.Sprintf("_vf%s%d", p, r.tmp))
 }
 
-func sel(pkg, name string) ast.Expr { return &ast.SelectorExpr{X: ast.NewIdent(pkg), Sel: ast.NewIdent(name)} }
+func sel(pkg, name string) ast.Expr {
+	return &ast.SelectorExpr{X: ast.NewIdent(pkg), Sel: ast.NewIdent(name)}
+}
 func call(fn ast.Expr, args ...ast.Expr) *ast.CallExpr {
 	return &ast.CallExpr{Fun: fn, Args: args}
 }
@@ -103,11 +105,96 @@ func (r *rewriter) rewriteGo(g *ast.GoStmt) ast.Stmt {
 	}}
 }
 
+// sub rewrites a node that is being moved into a replacement (Apply does not
+// walk replacement nodes).
+func (r *rewriter) subStmts(list []ast.Stmt) []ast.Stmt {
+	b := &ast.BlockStmt{List: list}
+	astutil.Apply(b, r.pre, r.post)
+	return b.List
+}
+
+func (r *rewriter) subExpr(e ast.Expr) ast.Expr {
+	h := &ast.ParenExpr{X: e}
+	astutil.Apply(h, r.pre, r.post)
+	return h.X
+}
+
+// rewriteSelect turns a select statement into sched.Select + switch.
+func (r *rewriter) rewriteSelect(n *ast.SelectStmt) ast.Stmt {
+	r.needSched = true
+	r.counts["select"]++
+	var pre []ast.Stmt
+	var cases []ast.Expr
+	var clauses []ast.Stmt
+	hasDefault := false
+	idx := r.fresh("i")
+	val := r.fresh("v")
+	okv := r.fresh("ok")
+	use := func() ast.Stmt {
+		return &ast.AssignStmt{Lhs: []ast.Expr{ast.NewIdent("_"), ast.NewIdent("_")}, Tok: token.ASSIGN, Rhs: []ast.Expr{ast.NewIdent(val.Name), ast.NewIdent(okv.Name)}}
+	}
+	k := 0
+	for _, cl := range n.Body.List {
+		cc := cl.(*ast.CommClause)
+		body := r.subStmts(cc.Body)
+		if cc.Comm == nil {
+			hasDefault = true
+			clauses = append(clauses, &ast.CaseClause{List: nil, Body: append([]ast.Stmt{use()}, body...)})
+			continue
+		}
+		var head []ast.Stmt
+		switch st := cc.Comm.(type) {
+		case *ast.SendStmt:
+			ch, v := r.fresh("c"), r.fresh("s")
+			pre = append(pre, &ast.AssignStmt{Lhs: []ast.Expr{ch, v}, Tok: token.DEFINE, Rhs: []ast.Expr{r.subExpr(st.Chan), r.subExpr(st.Value)}})
+			cases = append(cases, call(sel("sched", "SendCase"), ch, v))
+		case *ast.ExprStmt:
+			u := st.X.(*ast.UnaryExpr)
+			ch := r.fresh("c")
+			pre = append(pre, &ast.AssignStmt{Lhs: []ast.Expr{ch}, Tok: token.DEFINE, Rhs: []ast.Expr{r.subExpr(u.X)}})
+			cases = append(cases, call(sel("sched", "RecvCase"), ch))
+		case *ast.AssignStmt:
+			u := st.Rhs[0].(*ast.UnaryExpr)
+			ch := r.fresh("c")
+			pre = append(pre, &ast.AssignStmt{Lhs: []ast.Expr{ch}, Tok: token.DEFINE, Rhs: []ast.Expr{r.subExpr(u.X)}})
+			cases = append(cases, call(sel("sched", "RecvCase"), ch))
+			rhs := []ast.Expr{call(sel("sched", "RecvVal"), ch, ast.NewIdent(val.Name))}
+			if len(st.Lhs) == 2 {
+				rhs = append(rhs, ast.NewIdent(okv.Name))
+			}
+			head = append(head, &ast.AssignStmt{Lhs: st.Lhs, Tok: st.Tok, Rhs: rhs})
+			if st.Tok == token.DEFINE {
+				for _, l := range st.Lhs {
+					if id, ok := l.(*ast.Ident); ok && id.Name != "_" {
+						head = append(head, &ast.AssignStmt{Lhs: []ast.Expr{ast.NewIdent("_")}, Tok: token.ASSIGN, Rhs: []ast.Expr{ast.NewIdent(id.Name)}})
+					}
+				}
+			}
+		default:
+			r.errs = append(r.errs, fmt.Sprintf("%s: unsupported select clause", r.pkg.Fset.Position(cc.Pos())))
+		}
+		clauses = append(clauses, &ast.CaseClause{List: []ast.Expr{&ast.BasicLit{Kind: token.INT, Value: strconv.Itoa(k)}}, Body: append(append([]ast.Stmt{use()}, head...), body...)})
+		k++
+	}
+	hd := "false"
+	if hasDefault {
+		hd = "true"
+	}
+	args := append([]ast.Expr{ast.NewIdent(hd)}, cases...)
+	sw := &ast.SwitchStmt{
+		Init: &ast.AssignStmt{Lhs: []ast.Expr{idx, val, okv}, Tok: token.DEFINE, Rhs: []ast.Expr{call(sel("sched", "Select"), args...)}},
+		Tag:  ast.NewIdent(idx.Name),
+		Body: &ast.BlockStmt{List: clauses},
+	}
+	return &ast.BlockStmt{List: append(pre, sw)}
+}
+
 func (r *rewriter) pre(c *astutil.Cursor) bool {
 	switch n := c.Node().(type) {
 	case *ast.SelectStmt:
 		if r.modes["sched"] {
-			r.errs = append(r.errs, fmt.Sprintf("%s: select statement is not supported by the instrumenter", r.pkg.Fset.Position(n.Pos())))
+			c.Replace(r.rewriteSelect(n))
+			return false
 		}
 	case *ast.AssignStmt:
 		if r.modes["sched"] && len(n.Lhs) == 2 && len(n.Rhs) == 1 {
